@@ -26,7 +26,7 @@ def worker(args):
     from vf.models import catalog
     sub = core.Sub()
     env = sx.Env(catalog.by_name(name))
-    ex = sx.Explorer(env, fixtures=(fixture,), ops=[op for op in env.ops() if op[0] != 'qdel'])   # bulk delete bypasses the cache by design: C15
+    ex = sx.Explorer(env, fixtures=(fixture,), ops=[op for op in env.ops() if op[0] != 'qdel'] + [r for r in env.shaping_reads() if r[0] in ('r_attr', 'r_cin')])   # bulk delete bypasses the cache by design: C15
     def visit(env, fixture, hist, x):
         op = hist[-1]
         before = x.dumps[-2] if len(x.dumps) >= 2 else None
@@ -52,7 +52,7 @@ def worker(args):
                 sig = '%s|%s|rows-changed-without-commit' % (name.split('-')[0], kinds(hist))
                 sub.violation(sig, dict(model=name, fixture=fixture, history=hist, before=before, after=after),
                               'committed rows changed by %r (obs %r)' % (op, x.obs[-1]))
-    depth = 2
+    depth = 2 if tier == 'quick' else 3
     ex.track_dumps = True
     ex.run(depth, visit, order=sx.seeded_order(seed), last_only=(lambda op: op[0] in COMMITS + ('rollback', 'raise')))
     env.close()
